@@ -67,6 +67,13 @@ static int w_fd = -1; static FILE* wlog; static char* wlog_b; static size_t wlog
 
 static void do_ops(char* ops, int in_cb);
 
+/* close without leaving a TIME_WAIT entry (thousands of cases per run share the port range) */
+static void abort_close(int fd) {
+  struct linger lg; lg.l_onoff = 1; lg.l_linger = 0;
+  setsockopt(fd, SOL_SOCKET, SO_LINGER, &lg, sizeof lg);
+  close(fd);
+}
+
 int __wrap_socket(int d, int t, int p) {
   const char* tok; int r, e;
   if (!g_active || !in_call) return __real_socket(d, t, p);
@@ -163,6 +170,14 @@ static void do_ops(char* ops, int in_cb) {
       {
         struct sockaddr_in a; memset(&a, 0, sizeof a);
         a.sin_family = AF_INET; a.sin_addr.s_addr = htonl(INADDR_LOOPBACK);
+        if (tok[1] == '6') {          /* [::1]:lport - EAFNOSUPPORT when the handle already has an AF_INET socket */
+          struct sockaddr_in6 a6; memset(&a6, 0, sizeof a6);
+          a6.sin6_family = AF_INET6; a6.sin6_addr = in6addr_loopback; a6.sin6_port = htons(lport);
+          q = &reqs[nreq]; q->id = nreq; nreq++;
+          in_call = 1; r = uv_tcp_connect(&q->req, &h.tcp, (struct sockaddr*) &a6, connect_cb); in_call = 0;
+          printf("u%d:%d ", q->id, r);
+          break;
+        }
         if (tok[1] == 'l') a.sin_port = htons(lport);
         else {
           int s = socket(AF_INET, SOCK_STREAM, 0); struct sockaddr_in b; socklen_t bl = sizeof b;
@@ -173,6 +188,15 @@ static void do_ops(char* ops, int in_cb) {
         q = &reqs[nreq]; q->id = nreq; nreq++;
         in_call = 1; r = uv_tcp_connect(&q->req, &h.tcp, (struct sockaddr*) &a, connect_cb); in_call = 0;
         printf("u%d:%d ", q->id, r);
+      }
+      break;
+    case 'b':
+      if (g_kind != 't' || g_closing) break;
+      {
+        struct sockaddr_in a; memset(&a, 0, sizeof a);
+        a.sin_family = AF_INET; a.sin_addr.s_addr = htonl(INADDR_LOOPBACK);
+        in_call = 1; r = uv_tcp_bind(&h.tcp, (struct sockaddr*) &a, 0); in_call = 0;
+        (void) r;
       }
       break;
     case 'B':
@@ -217,12 +241,13 @@ static void do_ops(char* ops, int in_cb) {
       break;
     default: break;
     }
+    printf("q%u ", loop.active_reqs.count);      /* requests registered with the loop, after every operation */
   }
 }
 
 static void drain_listeners(void) {
   int s;
-  while ((s = accept4(listener, NULL, NULL, SOCK_NONBLOCK)) >= 0) close(s);
+  while ((s = accept4(listener, NULL, NULL, SOCK_NONBLOCK)) >= 0) abort_close(s);
   while ((s = accept4(ulistener, NULL, NULL, SOCK_NONBLOCK)) >= 0) close(s);
 }
 
@@ -252,11 +277,12 @@ static void run_connect_case(char** sec) {
   g_active = 1;
   do_ops(sec[1], 0);
   fclose(slog); fclose(clog_); fclose(glog); fclose(evlog);
-  printf("; %s; %s; %s; %s\n", slog_b, clog_b, glog_b, ev_b);
+  /* close every handle, let the loop finish: nothing may be left registered */
   g_quiet = 1; g_active = 0;
   uv_walk(&loop, walk_close, NULL);
   for (i = 0; i < 50 && uv_run(&loop, UV_RUN_NOWAIT); i++) ;
-  uv_loop_close(&loop);
+  { int alive = uv_loop_alive(&loop); printf("z%d,%d ", alive, uv_loop_close(&loop)); }
+  printf("; %s; %s; %s; %s\n", slog_b, clog_b, glog_b, ev_b);
   drain_listeners();
   free(slog_b); free(clog_b); free(glog_b); free(ev_b); free(scr_s); free(scr_c); free(scr_g);
 }
@@ -335,7 +361,7 @@ static void run_write_case(const char* spec) {
   fclose(wlog);
   printf("w%d f%d ; %s\n", r, nf, wlog_b);
   free(wlog_b);
-  if (b >= 0) close(b);
+  if (b >= 0) abort_close(b);
   uv_walk(&loop, walk_close, NULL);
   for (i = 0; i < 50 && uv_run(&loop, UV_RUN_NOWAIT); i++) ;
   uv_loop_close(&loop);
